@@ -153,6 +153,9 @@ func (l *listener) Accept() (transport.CapableConn, error) {
 		if !c.IsClosed() {
 			return c, nil
 		}
+		// The connection died while it was waiting to be accepted. Nobody else
+		// holds it: close it to release its resource scope.
+		c.Close()
 	}
 	if strings.Contains(l.err.Error(), "use of closed network connection") {
 		return nil, transport.ErrListenerClosed
